@@ -644,8 +644,7 @@ class HandshakeSettings(object):
         if other.maxVersion not in KNOWN_VERSIONS:
             raise ValueError("maxVersion set incorrectly")
 
-        if other.maxVersion < (3, 4):
-            other.versions = [i for i in other.versions if i < (3, 4)]
+        other.versions = [i for i in other.versions if i <= other.maxVersion]
 
     @staticmethod
     def _sanityCheckEMSExtension(other):
